@@ -34,13 +34,15 @@ def cases(tier, seed):
         for names in ("default", "str", "int"):
             for cells in ("S", "A"):
                 yield {"ni": ni, "nc": nc, "nt": nt, "names": names, "cells": cells, "labels": "default", "values": "id", "vseed": 0}
+                if names == "default" and nt == 3:
+                    yield {"ni": ni, "nc": nc, "nt": nt, "names": names, "cells": cells, "labels": "default", "values": "repeats", "vseed": ni * 10 + nc}
     rng = np.random.default_rng([seed, 15])
     nrand = 60 if tier == "quick" else 3000
     for _ in range(nrand):
         yield {"ni": int(rng.integers(1, 9 if tier == "quick" else 31)), "nc": int(rng.integers(1, 5 if tier == "quick" else 7)),
                "nt": int(rng.integers(2, 14 if tier == "quick" else 51)), "names": ["default", "str", "int"][int(rng.integers(0, 3))],
                "cells": "SA"[int(rng.integers(0, 2))], "labels": ["default", "default", "ints", "strs", "unsorted-ints", "unsorted-strs"][int(rng.integers(0, 6))],
-               "values": ["id", "random", "huge"][int(rng.integers(0, 3))], "vseed": int(rng.integers(0, 2 ** 31))}
+               "values": ["id", "random", "huge", "repeats"][int(rng.integers(0, 4))], "vseed": int(rng.integers(0, 2 ** 31))}
 
 
 def _names(scheme, nc):
@@ -55,6 +57,13 @@ def _make(case):
     ni, nc, nt = case["ni"], case["nc"], case["nt"]
     if case["values"] == "id":
         arr = np.array([[[1e6 * (i + 1) + 1e3 * (j + 1) + t for t in range(nt)] for j in range(nc)] for i in range(ni)], dtype=float)
+    elif case["values"] == "repeats":
+        # few distinct values (counts, plateaus, padding): observations that repeat within a series, across variables and across instances
+        rng = np.random.default_rng([case["vseed"], 152])
+        arr = rng.integers(0, 3, size=(ni, nc, nt)).astype(float)
+        arr[:, :, -1] = arr[:, :, 0]
+        if ni >= 2:
+            arr[1] = arr[0]
     else:
         rng = np.random.default_rng([case["vseed"], 151])
         arr = rng.normal(0, 1.0 if case["values"] == "random" else 1e12, size=(ni, nc, nt))
